@@ -10,7 +10,7 @@ import (
 )
 
 // TextAlphabet: one representative of every escaping / UTF-8 class.
-var TextAlphabet = []string{"a", `"`, `\`, "\n", "\t", "\b", "\f", "\r", "\x00", "\x1f", "\x7f", "<", "&", "é", " ", "😀", "\xff", "\xc0", "\xed\xa0\x80", "\xc3", "\x80", "\xf0\x9f\x98", "%"}
+var TextAlphabet = []string{"a", `"`, `\`, "\n", "\t", "\b", "\f", "\r", "\x00", "\x1f", "\x7f", "<", "&", "é", " ", "😀", "\xff", "\xc0", "\xed\xa0\x80", "\xc3", "\x80", "\xf0\x9f\x98", "%", "\ufffd"} // (the last one: a WELL-FORMED replacement character in the input)
 
 // Text classes used in windows.
 var TextClasses = []string{"v", "", `a"b\c`, "\n\x00\x1f", "é😀 ", "\xff\xc3", "<&\x7f", EscapeLike, FormatLike}
